@@ -7,7 +7,7 @@
 From Coq Require Import List NArith Bool.
 From V.C10 Require Import Model.
 From V.Mgr Require Import DialShape DialShapeProofs Model Caps Ledger LedgerInv.
-From V.Tcp Require Model Proofs Theorems Variants VariantTheorems Once.
+From V.Tcp Require Model Proofs Theorems Variants VariantTheorems Once Settle.
 Import ListNotations.
 Open Scope N_scope.
 
@@ -420,7 +420,7 @@ Proof. exact Tcp.Theorems.history1_ok. Qed.
 
 
 (* ---- the same contract for each socket transport: TCP, WebSocket, QUIC (coq/Tcp/Variants.v,
-   VariantTheorems.v, Once.v) ----
+   VariantTheorems.v, Once.v, Settle.v) ----
    tcp/mod.rs, websocket/mod.rs and quic/mod.rs keep the same books with the same poll_next; what differs
    is the front end (which multiaddresses `dial` accepts, which addresses of an `open` become attempts,
    the peer an attempt expects, whether `open` has an overall deadline). `tstep t` is the bookkeeping
@@ -730,6 +730,37 @@ Theorem C05_tr_open_unparsable_fails :
   In (Tcp.Model.OEv (Tcp.Model.TOpenFailure c)) (snd (Tcp.Variants.tstep t (fst (Tcp.Variants.tstep t s (Tcp.Variants.XOpen c l))) (Tcp.Variants.XEv e))).
 Proof. exact Tcp.VariantTheorems.t_open_unparsable_fails. Qed.
 Print Assumptions C05_tr_open_unparsable_fails.
+
+(* never silence, bookkeeping model: from every reachable state the environment has a finite schedule (attempts ending, polls) after which nothing is owed any more: no state in which an answer is owed but nothing can complete *)
+Theorem C05_tcp_can_always_settle :
+  forall s g,
+  Tcp.Theorems.reach s g ->
+  exists es, forallb Tcp.Settle.env_ev es = true /\
+             Tcp.Theorems.reach (fst (Tcp.Settle.runG s g es)) (snd (Tcp.Settle.runG s g es)) /\
+             Tcp.Model.g_open (snd (Tcp.Settle.runG s g es)) = [] /\ Tcp.Model.g_neg (snd (Tcp.Settle.runG s g es)) = [].
+Proof. exact Tcp.Settle.tcp_can_always_settle. Qed.
+Print Assumptions C05_tcp_can_always_settle.
+
+(* ... and an environment event takes an id out of the owed sets only by emitting its answer: so on that schedule every owed open / negotiate gets its answer (exactly one, with C05_tcp_answers_at_most_once) *)
+Theorem C05_tcp_env_removes_only_by_answer :
+  forall s g e c,
+  Tcp.Settle.env_ev e = true ->
+  (In c (Tcp.Model.g_open g) -> ~ In c (Tcp.Model.g_open (Tcp.Model.gstep e (snd (Tcp.Model.step s e)) g)) ->
+   exists o, In o (snd (Tcp.Model.step s e)) /\ Tcp.Settle.answers_open c o) /\
+  (In c (Tcp.Model.g_neg g) -> ~ In c (Tcp.Model.g_neg (Tcp.Model.gstep e (snd (Tcp.Model.step s e)) g)) ->
+   exists o, In o (snd (Tcp.Model.step s e)) /\ Tcp.Settle.answers_neg c o).
+Proof. exact Tcp.Settle.tcp_env_removes_only_by_answer. Qed.
+Print Assumptions C05_tcp_env_removes_only_by_answer.
+
+(* never silence, per transport: the schedule uses attempts ending and polls only, never the overall deadline that QUIC lacks *)
+Theorem C05_tr_can_always_settle :
+  forall t s g,
+  Tcp.VariantTheorems.treach t s g ->
+  exists es, forallb Tcp.Settle.env_ev es = true /\
+             Tcp.VariantTheorems.treach t (fst (Tcp.Settle.runG s g es)) (snd (Tcp.Settle.runG s g es)) /\
+             Tcp.Model.g_open (snd (Tcp.Settle.runG s g es)) = [] /\ Tcp.Model.g_neg (snd (Tcp.Settle.runG s g es)) = [].
+Proof. exact Tcp.Settle.t_can_always_settle. Qed.
+Print Assumptions C05_tr_can_always_settle.
 
 
 (* non-vacuity, WebSocket: dial refuses an address without /p2p and a TCP address; of three addresses
